@@ -98,8 +98,14 @@ def _check_pt(case, exact):
 def _check_tg(case, exact):
     tiers, lo, hi, a, b = case
     tg = Textgrid(lo, hi)
-    for kind, name, entries in tiers:
-        tg.addTier((IT if kind == "I" else PT)(name, list(entries), lo, hi))
+    spans = []
+    for t in tiers:
+        kind, name, entries = t[:3]
+        tlo, thi = t[3] if len(t) > 3 else (lo, hi)  # a tier's own span may be narrower than the textgrid's
+        spans.append((tlo, thi))
+        tg.addTier((IT if kind == "I" else PT)(name, list(entries), tlo, thi))
+    tiers = tuple(t[:3] for t in tiers)
+    uniform = all(sp == (lo, hi) for sp in spans)
     viols, summ, n = [], [], 0
     for sh in (False, True):
         n += 1
@@ -119,14 +125,14 @@ def _check_tg(case, exact):
             msg = f"{tag}: tier names/order {r.tierNames}"
         cnt = 0
         ehi_tg = F(hi) - (F(b) - F(a)) if sh else F(hi)
-        for (kind, name, entries), rt in zip(tiers, r.tiers):
+        for (kind, name, entries), rt, (tlo, thi) in zip(tiers, r.tiers, spans):
             if msg:
                 break
             E = ival.fentries(entries)
             if kind == "I":
-                exp, elo, ehi = ival.erase_intervals(E, F(lo), F(hi), F(a), F(b), "truncate", sh)
+                exp, elo, ehi = ival.erase_intervals(E, F(tlo), F(thi), F(a), F(b), "truncate", sh)
             else:
-                exp, elo, ehi = ival.erase_points(E, F(lo), F(hi), F(a), F(b), sh)
+                exp, elo, ehi = ival.erase_points(E, F(tlo), F(thi), F(a), F(b), sh)
             cnt += len(exp)
             msg = ival.compare_entries(ents(rt), exp, exact, f"{tag} tier {name}") or \
                 ival.compare_num(rt.minTimestamp, elo, exact, f"{tag} tier {name} min") or \
@@ -134,12 +140,12 @@ def _check_tg(case, exact):
         if msg is None:
             msg = ival.compare_num(r.minTimestamp, F(lo), exact, f"{tag} textgrid min") or \
                 ival.compare_num(r.maxTimestamp, ehi_tg, exact, f"{tag} textgrid max")
-        if msg is None:
+        if msg is None and uniform:
             v = call(r.validate, "silence")
             if v[0] != "ok" or v[1] is not True:
                 msg = f"{tag}: validate() is not True on the result"
         if msg:
-            viols.append(Viol("tg-erase-result", msg + f"  [tiers {tiers}]"))
+            viols.append(Viol("tg-erase-result", msg + f"  [tiers {tiers} spans {spans}]"))
         summ.append(str(cnt))
     return n, "/".join(summ), (tuple(order_type(e, (a, b)) for _, _, e in tiers), cmp3(a, b)), viols
 
@@ -265,6 +271,18 @@ def parts(tier):
                         for b in twin:
                             if a < b or (a == b == 1.0):
                                 yield (tiers, 0.0, 4.0, a, b)
+        # a textgrid that is LONGER than every one of its tiers (and tiers of different lengths): regions inside the shortest tier
+        short_sets = D.interval_sets((0.0, 1.0, 2.0), 2)
+        for s1 in short_sets:
+            for s2 in D.interval_sets((0.0, 1.0, 2.0, 3.0), 2)[::3]:
+                ta = ("I", "short", D.labelled(s1), (0.0, 2.0))
+                tb = ("I", "mid", D.labelled(s2, "x"), (0.0, 3.0))
+                tp = ("P", "p", D.labelled_points((1.0, 2.0)), (0.0, 2.0))
+                for order in ((ta, tb, tp), (tp, tb, ta)):
+                    for a in (0.0, 0.5, 1.0):
+                        for b in (1.0, 1.5, 2.0):
+                            if a < b:
+                                yield (order, 0.0, 4.0, a, b)
         dsets2 = D.interval_sets(D.DEC[:5], 2)
         for s1 in dsets2[::2]:
             for s2 in dsets2[::5]:
